@@ -494,8 +494,11 @@ class SketchSubject(Subject):
             except ZeroDivisionError:
                 ans.append("zerodiv")  # mean-min with width 1: outside every statement, but must agree
         return {
-            # confidence / error_rate are derived accuracy figures, not stored: geometry = width, depth, mode
-            "geom": [o.width, o.depth, o.query_type],
+            # confidence / error_rate are not stored; a sketch sized by (width, depth) derives them from those two, so
+            # they must survive a reload - one sized by (confidence, error_rate) reports the caller's figures before
+            # and the derived ones after, which is not demanded
+            "geom": [o.width, o.depth, o.query_type] + ([repr(o.confidence), repr(o.error_rate)]
+                                                        if "width" in self.cfg["sizing"] else []),
             "count": o.elements_added,
             "answers": ans,
         }
